@@ -85,3 +85,32 @@ Definition check_ippo_prep (tol : Q) (fixed mdf nz : bool) (groups : list (nat *
   | None, None => true
   | _, _ => false
   end.
+
+(* ================= deepening round ================= *)
+Definition check_prep_r (r0 mdf nz : bool) (tol : Q) (sp : space) (o : obs) (seen : option pobs) : bool :=
+  opt_eqb (pobs_eqb tol) (prep_r r0 mdf nz sp o) seen.
+
+(* single-agent get_action on a batch vs one observation at a time: the network is row-wise, so the report at
+   position i of the batch is the report of the single observation whose prepared row equals prepared row i.
+   seen = Some (for every batch position the index of the matching single report) or None when the call raised. *)
+Fixpoint find_row (r : list Q) (cands : list (list Q)) (i : nat) : nat :=
+  match cands with
+  | [] => 4999
+  | c :: cs => if list_eqb Qeq_bool r c then i else find_row r cs (S i)
+  end.
+Definition single_row (r0 mdf nz : bool) (l : leaf) (s : tq) : list Q :=
+  match get_action_model r0 mdf nz l (fun r => r) s with Some [r] => r | _ => [] end.
+Definition check_batch (r0 mdf nz : bool) (l : leaf) (batch : tq) (singles : list tq) (seen : option (list nat)) : bool :=
+  let srows := map (single_row r0 mdf nz l) singles in
+  opt_eqb (list_eqb Nat.eqb)
+          (option_map (map (fun r => find_row r srows 0)) (get_action_model r0 mdf nz l (fun r => r) batch))
+          seen.
+
+Definition check_mbnd (dims : list nat) (t : tq) (seen : option tq) : bool :=
+  opt_eqb (tq_eqb 0) (prep_mb_nd dims t) seen.
+
+(* direct calls of the helpers (numpy arrays and tensors alike) *)
+Definition check_addbatch (t : tq) (s : list nat) (seen : option tq) : bool :=
+  opt_eqb (tq_eqb 0) (add_batch_dim t s) seen.
+Definition check_norm (tol : Q) (bounded : bool) (lo hi : list Q) (t : tq) (seen : tq) : bool :=
+  tq_eqb tol (normalize bounded lo hi t) seen.
